@@ -42,6 +42,13 @@ def gen_bundle(rng, k, tier):
         rows, rowmap, _ = l1.render(c, lay, rng, order=order)
         b["cases"][a], b["rows"][a], b["rowmaps"][a], b["order"][a] = c, rows, rowmap, order
     b["exchanges"], b["holders"] = b["cases"]["B1"]["exchanges"], b["cases"]["B1"]["holders"]
+    if k % 4 == 2:
+        # the run has a reporting window (-f / -t): what is READ from the sheet must not depend on it (the window only selects the
+        # filtered views); drawn on / next to the transactions' own days
+        days = sorted({hist.local_day(r["ts"]) for c in b["cases"].values() for key in ("ins", "outs", "intras") for r in c[key]})
+        pick = lambda: rng.choice(days) + rng.choice([0, 0, 1, -1])  # noqa: E731
+        w = sorted([pick(), pick()])
+        b["window"] = [[w[0], None], [None, w[1]], w, [w[1] + 1, w[1] + 400]][rng.below(4)]
     if not two and len(assets) == 2 and rng.chance(50):
         b["rows_extra"] = {"B2": [[None]]}           # an unrelated, empty sheet that is not parsed
     return b
@@ -56,7 +63,7 @@ def job_of(b, d):
         c = l1.expected(b["cases"][a], b["lay"], b["rowmaps"][a], c)["counter"]
     return {"dir": d, "k": b["k"], "ini": l1.ini_text(b["lay"], b["assets"], b["exchanges"], b["holders"]), "sheets": sheets,
             "parse": b["parse"], "lay": b["lay"], "assets": b["assets"], "exchanges": b["exchanges"], "holders": b["holders"],
-            "counters": counters}
+            "counters": counters, "window": b.get("window")}
 
 
 def run_one(args):
